@@ -338,6 +338,10 @@ func (g *G) basePlan(prop string, seed uint64) *Plan {
 	for i := 0; i < 4; i++ {
 		p.Content.Addrs = append(p.Content.Addrs, g.addr())
 	}
+	if g.chance(10) {
+		// busy blocks: many transactions and logs per block
+		p.Content.TxMax, p.Content.LogMax = g.between(6, 10), g.between(10, 24)
+	}
 	p.MaxSteps = 4000
 	return p
 }
